@@ -204,7 +204,7 @@ class ScopeExprGen:
 
     COMPS = ["list", "list", "list", "set", "dict", "gen", "gen"]
 
-    def __init__(self, rng, globals_, fresh=None, p_shadow=0.55, budget=22, avoid_builtins=()):
+    def __init__(self, rng, globals_, fresh=None, p_shadow=0.55, budget=22, avoid_builtins=(), allow_walrus=True, p_nest=0.35):
         self.rng = rng
         self.avoid_builtins = set(avoid_builtins)       # built-in names the space shadows (of `len`: not used then)
         self.globals = list(globals_)
@@ -213,7 +213,8 @@ class ScopeExprGen:
         self.p_shadow = p_shadow
         self.budget = budget
         self.tags = set()
-        self.nwal = 0
+        self.nwal = 0 if allow_walrus else 99
+        self.p_nest = p_nest      # how often the element of a comprehension is itself built from a comprehension
         self.no_scope = 0         # > 0: inside a default value (no nested scope there: known finding)
         self.no_walrus = 0        # > 0: inside a comprehension iterable (SyntaxError there)
         self.comp_targets = []    # names that are iteration variables around the position (walrus may not rebind)
@@ -430,6 +431,10 @@ class ScopeExprGen:
             if kind == "dict":
                 key = targets[-1]
                 body = "%s: %s" % (key, self.val_expr(d - 1, inner) if elem == "val" else self.int_expr(d - 1, inner))
+            elif d - 1 >= 1 and self.budget > 0 and rng.random() < self.p_nest:
+                body = self.seq_expr(d - 1, inner, "int", as_list=True)
+                if elem == "int" or kind == "set":
+                    body = "sum(%s)" % body
             elif elem == "int" or kind == "set":
                 body = self.int_expr(d - 1, inner)
             else:
